@@ -24,12 +24,18 @@ def play_history(rng, length=40):
     per = [extreme_ins(rng, k, 100 + k) for k in (35, 36, 38, 60, 127)]
     banks = [{"p": 0, "msb": 0, "lsb": 0, "ins": mel}, {"p": 1, "msb": 0, "lsb": 0, "ins": per}]
     h = [{"e": "Init", "rate": rng.choice([44100, 8000]), "chips": rng.choice([1, 2]), "lim": rng.choice([0, 3, 6]), "mch": [0, 9],
-          "arp": rng.choice([0, 1]), "alloc": rng.choice([-1, 0, 1, 2]), "banks": banks, "emu": rng.choice([0, 0, 2, 4])}]
+          "arp": rng.choice([0, 1]), "alloc": rng.choice([-1, 0, 1, 2]), "banks": banks, "emu": rng.choice([0, 0, 2, 4]),
+          # every volume model: the table-driven ones (DMX, Win9x) index tables with velocity (+ the instrument's velocity
+          # offset), channel volume and expression
+          "vm": rng.choice([0, 1, 2, 3, 4, 5]), "frb": rng.choice([0, 1]), "smod": rng.choice([0, 1])}]
     if rng.random() < 0.5:
         h.append({"e": "OpenBank"})          # the same instruments through a generated WOPN file
     for _ in range(length):
         r = rng.random(); ch = rng.choice([0, 0, 9])
-        if r < 0.30: h.append({"e": "NoteOn", "ch": ch, "k": rng.choice([0, 1, 35, 36, 38, 60, 126, 127]), "v": rng.choice([1, 100, 127])})
+        if r < 0.30:
+            if rng.random() < 0.3:   # loudest setting first: top of every volume table
+                h += [{"e": "CC", "ch": ch, "n": 7, "v": 127}, {"e": "CC", "ch": ch, "n": 11, "v": 127}]
+            h.append({"e": "NoteOn", "ch": ch, "k": rng.choice([0, 1, 35, 36, 38, 60, 126, 127]), "v": rng.choice([1, 100, 124, 126, 127])})
         elif r < 0.38: h.append({"e": "NoteOff", "ch": ch, "k": rng.choice([0, 35, 60, 127])})
         elif r < 0.48: h.append({"e": "Patch", "ch": 0, "p": rng.randrange(6)})
         elif r < 0.58: h.append({"e": "Bend", "ch": ch, "v": rng.choice([0, 1, 8192, 16383])})
@@ -39,6 +45,7 @@ def play_history(rng, length=40):
         elif r < 0.74: h.append({"e": "CC", "ch": ch, "n": rng.choice([1, 5, 37, 65, 7, 11, 74, 10, 64]), "v": rng.choice([0, 1, 64, 127])})
         elif r < 0.80: h.append({"e": "ChanAT", "ch": ch, "v": 127})
         elif r < 0.92: h.append({"e": "Gen", "fr": rng.choice([64, 512, 2000])})
+        elif r < 0.94: h.append({"e": "SetVolModel", "v": rng.choice([0, 1, 2, 3, 4, 5])})
         elif r < 0.96: h.append({"e": "SetIns", "p": 0, "msb": 0, "lsb": 0, "i": rng.randrange(6), "ins": {k: v for k, v in extreme_ins(rng, 0, 50).items() if k != "i"}})
         else: h.append({"e": "Panic"})
     return h
